@@ -363,6 +363,117 @@ out:
 	vh_fini();
 }
 
+// ---- sets of aio operations pending at close (no threads) -------------------------
+typedef struct pa {
+	nng_aio *aio;
+	int      ncb, res;
+	const char *what;
+} pa;
+static void
+pa_cb(void *arg)
+{
+	pa *x = arg;
+	x->ncb++;
+	x->res = nng_aio_result(x->aio);
+}
+static void
+run_aioset(void *arg)
+{
+	int p = (int) (intptr_t) arg;
+	vh_init(1);
+	VH_OK(P[p].open(&S));
+	int with_peer = vs_choose(VK_ENV, 2); // 0: no peer (sends wait), 1: peer
+	char url[64];
+	snprintf(url, sizeof(url), "inproc://c10a-%s", P[p].name);
+	VH_OK(nng_listen(S, url, &LS, 0));
+	if (with_peer) {
+		VH_OK(P[p].peer(&PEER));
+		VH_OK(nng_dial(PEER, url, &DL, 0));
+	}
+	if (P[p].ctx)
+		VH_OK(nng_ctx_open(&CTX, S));
+	vs_settle();
+	pa  A[4];
+	int na = 0;
+	memset(A, 0, sizeof(A));
+	// which operations, in which order (send before recv: REQ/SURVEYOR allow
+	// a receive to be queued behind a send that has not completed yet)
+	int ops = vs_choose(VK_ENV, 4); // bit0: socket-level ops, bit1: ctx-level ops
+	if (!P[p].ctx)
+		ops &= 1;
+	for (int lvl = 0; lvl < 2; lvl++) {
+		if (!(ops & (1 << lvl)))
+			continue;
+		for (int dir = 0; dir < 2; dir++) { // 0 send, 1 recv
+			if ((dir == 0 && !P[p].can_send) || (dir == 1 && !P[p].can_recv))
+				continue;
+			pa *x   = &A[na++];
+			x->what = lvl ? (dir ? "ctx recv" : "ctx send")
+			              : (dir ? "socket recv" : "socket send");
+			VH_OK(nng_aio_alloc(&x->aio, pa_cb, x));
+			if (dir == 0) {
+				nng_msg *m;
+				VH_OK(nng_msg_alloc(&m, 3));
+				nng_aio_set_msg(x->aio, m);
+				if (lvl)
+					nng_ctx_send(CTX, x->aio);
+				else
+					nng_socket_send(S, x->aio);
+			} else {
+				if (lvl)
+					nng_ctx_recv(CTX, x->aio);
+				else
+					nng_socket_recv(S, x->aio);
+			}
+		}
+	}
+	vs_settle();
+	int pending = 0;
+	for (int i = 0; i < na; i++)
+		if (A[i].ncb == 0)
+			pending++;
+	int how = vs_choose(VK_ENV, P[p].ctx ? 2 : 1); // 0 socket close, 1 ctx close first
+	if (how == 1) {
+		int rv = nng_ctx_close(CTX);
+		if (rv != 0)
+			vs_fail("C10:close-result", "%s: ctx close -> %d", P[p].name, rv);
+		vs_settle();
+		vs_sleep(5);
+		for (int i = 0; i < na; i++)
+			if (A[i].what[0] == 'c' && A[i].ncb == 0)
+				vs_fail("C10:pending-after-close",
+				    "%s (%s peer): %s still pending after nng_ctx_close "
+				    "returned",
+				    P[p].name, with_peer ? "with" : "no", A[i].what);
+	}
+	int rv = nng_socket_close(S);
+	if (rv != 0)
+		vs_fail("C10:close-result", "%s: socket close -> %d", P[p].name, rv);
+	vs_settle();
+	vs_sleep(5);
+	for (int i = 0; i < na; i++) {
+		if (A[i].ncb == 0)
+			vs_fail("C10:pending-after-close",
+			    "%s (%s peer): %s still pending after nng_socket_close "
+			    "returned",
+			    P[p].name, with_peer ? "with" : "no", A[i].what);
+		if (A[i].ncb > 1)
+			vs_fail("C10:double-completion", "%s: %s completed %d times",
+			    P[p].name, A[i].what, A[i].ncb);
+		if (A[i].res != 0 && A[i].what[strlen(A[i].what) - 4] == 's' &&
+		    nng_aio_get_msg(A[i].aio) != NULL)
+			nng_msg_free(nng_aio_get_msg(A[i].aio)); // failed send: ours
+		if (A[i].res == 0 && A[i].what[strlen(A[i].what) - 4] == 'r' &&
+		    nng_aio_get_msg(A[i].aio) != NULL)
+			nng_msg_free(nng_aio_get_msg(A[i].aio));
+		nng_aio_free(A[i].aio);
+	}
+	vs_outcome("peer=%d ops=%d how=%d pending=%d", with_peer, ops, how, pending);
+	if (with_peer)
+		nng_socket_close(PEER);
+	vh_fini();
+}
+
 int
 main(int argc, char **argv)
 {
@@ -406,6 +517,23 @@ main(int argc, char **argv)
 			c.deadline_s         = T ? 40 : (w == W_CTXOP ? 30 : 6);
 			vx_explore(&c, NULL);
 		}
+	for (int p = 0; p < NP; p++) {
+		if (vx_time_left() < 15)
+			break;
+		char name[48];
+		snprintf(name, sizeof(name), "aioset-%s", P[p].name);
+		vx_cfg c;
+		memset(&c, 0, sizeof(c));
+		c.prop     = "C10";
+		c.scenario = strdup(name);
+		c.run      = run_aioset;
+		c.arg      = (void *) (intptr_t) p;
+		for (int i = 0; i < VB_NB; i++)
+			c.budget[i] = 0;
+		c.budget[VB_ENV] = -1;
+		c.total          = 0;
+		vx_explore(&c, NULL);
+	}
 	vx_note("scenarios",
 	    "closer kinds %d x protocols %d; pending blocking recv/send/ctx-recv on "
 	    "harness threads; budgets preempt %d, switch %d, wake1 1, total %d",
